@@ -16,6 +16,7 @@ type State struct {
 	heap   map[string]*Term
 	iters  map[*ssa.Range]*Term // visited set of a map iteration
 	ghost  map[string]*Term     // misc ghost variables ($next, held(...), ...)
+	epoch  int                  // >0 after a whole-heap havoc: arrays not in `heap` denote name@e<epoch>, not the entry version
 }
 
 func newState() *State {
@@ -36,6 +37,7 @@ func (s *State) clone() *State {
 	for k, v := range s.ghost {
 		n.ghost[k] = v
 	}
+	n.epoch = s.epoch
 	return n
 }
 
@@ -52,6 +54,15 @@ type HeapCtx struct {
 	freshFrom map[string]freshProv // array version -> the version it was havocked from with a fresh-only frame
 	opaqueSyms map[string][]*opaqueSym // pred key -> symbols created so far
 	emit     func(t *Term) // adds an unconditional assumption
+	epochCtr int
+}
+
+// havocAll: nothing is known about the heap any more (lock-discipline-only abstraction of unknown callees and loops);
+// the lock state $held and local variables are kept.
+func (h *HeapCtx) havocAll(st *State) {
+	st.heap = map[string]*Term{}
+	h.epochCtr++
+	st.epoch = h.epochCtr
 }
 
 type freshProv struct {
@@ -131,6 +142,13 @@ func (h *HeapCtx) arr(st *State, name string, sort *Sort) *Term {
 			h.accessLog[name] = t.S
 		}
 		return t
+	}
+	if st.epoch > 0 {
+		c := h.d.Const(fmt.Sprintf("%s@e%d", name, st.epoch), sort)
+		if h.accessLog != nil {
+			h.accessLog[name] = c.S
+		}
+		return c
 	}
 	if h.accessLog != nil {
 		h.accessLog[name] = name + "@0"
